@@ -24,6 +24,7 @@ type RunReport struct {
 	Harness     string // non-empty: harness trouble (exit 2)
 	Execs       int    // executions (scenario runs incl. sweep members)
 	Extra       map[string]int
+	IlvSet      map[string]bool
 	PerViolScen [][]Step // when set: V[i] is demonstrated by Sc with Steps = PerViolScen[i]
 }
 
@@ -219,6 +220,11 @@ func seqMode(prop string, quick, deep int) Mode {
 func planFor(prop string) *PropPlan {
 	p := &PropPlan{ID: prop, Level: "exploration", Assume: commonAssume}
 	switch prop {
+	case "C01", "C02", "C13":
+		p.Modes = []Mode{{Name: "conc", Quick: 24, Deep: 600,
+			Run:    func(bin string, seed uint64) *RunReport { return runConcSample(bin, prop, seed, false) },
+			Replay: ReplayConc}}
+		p.Rule = "per sample: a seeded pre-state (sequential history) and one batch of 2-6 concurrent ergo processes; from the same snapshot the batch is executed under seeded random and sticky schedules and under EVERY single-preemption schedule of the designated processes (process A runs to its k-th .ergo system call, everybody else runs to completion, A resumes; k = 0..K); evaluations = batch executions; a sample is non-trivial when at least one batch ran; distinct = distinct trace digests of samples; distinct_interleavings counts distinct context-switch sequences (process role x call class)"
 	case "C03", "C04":
 		p.Level = "fault_enumeration"
 		p.Modes = []Mode{{Name: "crash", Quick: 60, Deep: 1500,
